@@ -125,7 +125,7 @@ def run(ctx):
         ctx.require_guard(rule, f, "Eq", Len(pf), Lit(0), desc="prefixes.is_empty() -> Err")
         ctx.require_variant_guard(rule, f, Call("try_from", Len(pf)), "Err", True, desc="u32::try_from(prefixes.len()) is Err -> Err")
         item = lambda e: Mentions(Call("next"))(e)
-        e1 = ctx.require_guard(rule, f, "Ne", Call("len", item), Call("len", Index(pf, Lit(0))), every_iteration=True,
+        e1 = ctx.require_guard(rule, f, "Ne", Len(item), Len(Index(pf, Lit(0))), every_iteration=True,
                                desc="prefix.len() != prefixes[0].len() -> Err  [every prefix]")
         if e1 is not None:
             loop_covers_all(ctx, rule, f, e1, pf, "length loop iterates all prefixes")
@@ -154,7 +154,7 @@ def run(ctx):
                 ctx.ok(rule, key, "previous starts as None and is set to Some(current) on every iteration", loc=f.loc)
             else:
                 ctx.bad(rule, key, "the compared `previous prefix` is not updated to the current prefix on every iteration", loc=f.loc)
-        ctx.require_try_call(rule, f, Call("ok_or_else", Call("checked_sub", Call("len", Index(pf, Lit(0))), Lit(1))),
+        ctx.require_try_call(rule, f, Call("ok_or_else", Call("checked_sub", Len(Index(pf, Lit(0))), Lit(1))),
                              desc="len.checked_sub(1).ok_or_else(..)")
         ctx.require_try_call(rule, f, Call("map_err", Call("try_from", Try(Mentions(Call("checked_sub"))))), desc="u16::try_from(level).map_err(..)")
         # payload
